@@ -48,8 +48,9 @@ func (f *fragment) Stats() storage.Stats {
 func (f *fragment) Compaction() (bool, error) {
 	select {
 	case <-f.ctx.Done():
-		// fragment is closed or destroyed
-		return false, nil
+		// The fragment is closed or destroyed, there is nothing left to compact. Reporting
+		// "not done" here makes the compaction worker call this function forever.
+		return true, nil
 	default:
 	}
 	return f.storage.Compaction()
